@@ -36,7 +36,7 @@ RULE = ("a case = LRI/LRU with max_size 1-4 (on_miss in 30%), 0..max_size+1 init
         "public operations over max_size+2 keys, run under several deterministic schedules that pre-empt before chosen "
         "bytecodes executed inside cacheutils.py (random 0-3 pre-emptions; every 10th case: EVERY single pre-emption "
         "position of one thread; every 10th case: a same-key check-then-act race template swept the same way; 6 (quick) / 120 "
-        "(thorough) two-thread one-operation programs on the full grid of <= 2 pre-emptions; every 10th case one of the shapes {3 threads on one key, on_miss re-entrancy, LRU reads racing evictions, copy() racing writers} swept over every pre-emption position; thorough also: every ordered pair of 19 representative operations on a full cache over that grid AND over every single pre-emption position (complete)); observed per schedule: each thread's results, dict(cache), len, "
+        "(thorough) two-thread one-operation programs on the full grid of <= 2 pre-emptions; every 10th case one of the shapes {3 threads on one key, on_miss re-entrancy, reads of the oldest keys racing evictions, copy() racing writers, a batch update racing readers of its keys} swept over every pre-emption position; 2 / 60 three-thread grids (a pre-empted, b pre-empted, c runs); thorough also: every ordered pair of 19 representative operations on a full cache over that grid AND over every single pre-emption position (complete)); observed per schedule: each thread's results, dict(cache), len, "
         "eviction order by probing with fresh keys, order of outermost lock acquisitions.  non-trivial = some schedule "
         "actually switched threads inside cacheutils AND (a thread blocked on the lock held by a pre-empted thread, or "
         ">= 2 distinct outcomes were seen); distinct = distinct canonical case hash")
